@@ -22,7 +22,7 @@ def cfg_hook(rng, cfg, fam, i):
 
 
 def gen_cases(tier, seed):
-    fams = ["exact-chain", "exact-dag", "approx-tail", "stripe-stress", "alias-stress", "buffer-stress", "exact-chain", "approx-tail", "cpu-mix", "lut-stress", "exact-chain-big"]
+    fams = ["exact-chain", "exact-dag", "approx-tail", "stripe-stress", "alias-stress", "buffer-stress", "exact-chain", "approx-tail", "cpu-mix", "lut-stress", "exact-chain-big", "shared-weights"]
     return campaign.gen_cases(tier, seed, 1, 330, 8000, families=fams, cfg_hook=cfg_hook)
 
 
@@ -120,6 +120,8 @@ def net_features(net):
             p = prod[o.inputs[0]]
             if p.code in RELUS or p.opts.get("fused_activation_function", 0) not in (0, None):
                 feats.add("relu-chain")
+        if o.code in (3, 4) and len(o.inputs) > 2 and net.t(o.inputs[0]).dtype.name == "int16" and net.t(o.inputs[2]).dtype.name == "int32":
+            feats.add("int16-conv-int32-bias")
     return sorted(feats)
 
 
@@ -218,6 +220,8 @@ def run_case(case):
                     bad = np.argwhere(diff > allowed)
                     kinds = ",".join(net.info.get("kinds", []))
                     feats = net_features(net) + artefact_features(c.art)
+                    if diff.max() > 1 and "int16-conv-int32-bias" in feats:
+                        feats.remove("int16-conv-int32-bias")  # single instead of double rounding explains one LSB only
                     mech = "output-differs-from-source:%s:%s" % (klass, (net.info["family"].split(":")[-1] + ("+" + "+".join(feats) if feats else "")) if klass == "approx" else ("+".join(feats) if feats else "maxdiff>%d" % min(int(diff.max()), 3)))
                     viol.setdefault(mech, {"mech": mech, "msg": "%s: %d of %d elements differ by more than %d (max |diff| %d, first at %s: source %d compiled %d); input variant %d; ops %s" % (
                         name, len(bad), w.size, allowed, int(diff.max()), bad[0].tolist(), int(w[tuple(bad[0])]), int(g[tuple(bad[0])]), variant, kinds), "witness": dict(wit, variant=variant)})
